@@ -339,10 +339,12 @@ class ElementList(MutableSequence):
         elif isinstance(value, Element):  # it is already an instance of Element
             child = value
         elif isinstance(value, BaseDataType):
-            child = self.create_element(name, False, reference)
-            # create_element attaches the new child: detach it, it is put in its place below (a refused value
-            # leaves nothing behind, an accepted one replaces the addressed repetition instead of following it)
-            self.remove(child)
+            if reference is None:
+                raise ChildNotFound(name)
+            # a new child that is not attached yet: it is put in its place below (a refused value leaves nothing
+            # behind, an accepted one replaces the addressed repetition - also when only one is allowed)
+            child = reference['cls'](reference['name'], reference=reference['ref'], version=self.element.version,
+                                     validation_level=self.element.validation_level)
             child.value = value
         else:
             raise ChildNotValid(value, child_name)
